@@ -13,8 +13,10 @@
 (* The handler's absolute slack 1e-12 is 1.0995 tick (2^-40 = 9.09e-13     *)
 (* <= 1e-12 < 2*2^-40): one tick for whole-tick positions, 1125 sub-units  *)
 (* when step end points are jittered by sub-units.                         *)
-(* Event functions are g(p) = sgn * PROD (p - root) measured in ticks,     *)
-(* so Brent's shortcut |g| <= XTOL = 2e-12 is |g| <= 2.                    *)
+(* Event functions are g(p) = sgn * PROD (p - root) measured in ticks.      *)
+(* A step end answers for an event only where g vanishes there exactly     *)
+(* (repair 4876364; before it the shortcut was |g| <= XTOL = 2 ticks, a    *)
+(* bound on the VALUE of g that mislocates event functions of small scale).*)
 (* Values are symbolic: [at |-> time the value belongs to, seg |-> index   *)
 (* of the step whose interpolant (or end state) produced it].              *)
 (***************************************************************************)
@@ -75,9 +77,9 @@ Interp(k, t) == [at |-> t, seg |-> k]
 Detected(sc, hs, gcur) ==
     { i \in 1..Len(sc.evs) : Crossed(hs.prev[i], gcur[i], sc.evs[i].dir) }
 
-\* How the event time is determined: "L" = left end shortcut, "R" = right end
-\* shortcut, "B" = Brent refinement on the interpolant.
-RefineKind(l, r) == IF Abs(l) <= XTol THEN "L" ELSE IF Abs(r) <= XTol THEN "R" ELSE "B"
+\* How the event time is determined: "L" = left end (g vanishes there), "R" = right
+\* end (g vanishes there), "B" = Brent refinement on the interpolant.
+RefineKind(l, r) == IF l = 0 THEN "L" ELSE IF r = 0 THEN "R" ELSE "B"
 
 \* Detected events of step k as records; TE[i] is the oracle for Brent's result.
 EventRec(sc, hs, k, gcur, TE, i) ==
